@@ -22,7 +22,11 @@ RULE = ("boundary corpus (all lists of <= 3 events over a 7-letter data alphabet
         "dicts whose (key, value) pairs spell the same text / flatten to the same sequence; the random pools draw "
         "such companions for the values and dicts they hold; "
         "non-trivial = distinct canonical case in which the function had something to decide (two events in one "
-        "group or a key missing somewhere; a tie in the sort key; a count that cuts; a predicate both true and false)")
+        "group or a key missing somewhere; a tie in the sort key; a count that cuts; a predicate both true and false)"
+        "; round 3 (harness/c16_hist.py): the corpus through every registered query function (aw_query.functions.functions) and "
+        "query2 statements with arguments that stay referenced; call sequences in one process on live objects (the same / ==-equal "
+        "/ edited in between / other keys, counts, look-alike vals / earlier results overwritten); one input of >= 10 001 events "
+        "per transform")
 
 KEYS = ["a", "b", "c"]
 S = 1_000_000
